@@ -40,6 +40,8 @@ fn main() {
         "fuzz-child" => engines::fuzzopen::child(&args),
         "migrate" => engines::migrate::run(&args),
         "san" => engines::san::run(&args),
+        "cache" => engines::cache::run(&args),
+        "sweep" => engines::sweep::run(&args),
         "scratch" => engines::scratchpad::run(&args),
         other => {
             eprintln!("unknown engine {other}");
